@@ -411,6 +411,7 @@ SPIN_FORMS = [
     "int i = 0; do { } while (!i);",                                  # F_BBRANCH_WHEN_ZERO
     "int i; for (i = 0; i < 5; i++) i = 0;",                          # F_LOOP_INCR (+ the loop condition run inline)
     "int i, j = 0; foreach (i in allocate (15000)) j++;",             # F_NEXT_FOREACH: 15000 iterations > any budget used
+    "int i; for (i = 0; i < 2147483647; i++) ;",                      # F_LOOP_INCR jumping back to itself (empty body): 2^31 iterations
 ]
 # a loop through each of these opcodes must have been stopped by the budget in some evaluation of the run
 SPIN_MIN_ITERATIONS = 100
@@ -446,8 +447,10 @@ def lpc_of(root):
         elif k == "S":
             body.append("mixed %s () { %s return 0; }" % (name, SPIN_FORMS[node.form % len(SPIN_FORMS)]))
         elif k == "R":
-            form = node.form % 4
-            if form == 0:      # direct
+            form = node.form % 5
+            if form == 4:      # through an efun callback that carries 12 extra arguments (push_some_svalues: STACK_CHECK)
+                body.append("mixed %s () { %smap_array (({ 1 }), (: %s :), 1, 2, 3, 4, 5, 6, 7, 8, 9, 10, 11, 12); return 0; }" % (name, locals_decl(node.n), name))
+            elif form == 0:      # direct
                 body.append("mixed %s () { %s%s (); return 0; }" % (name, locals_decl(node.n), name))
             elif form == 1:    # mutual
                 protos.append("mixed %s_b ();" % name)
@@ -618,6 +621,18 @@ class C04(Prop):
             self.raw[k] = list(v)
         return res
 
+    def shrink_ok(self, lines):
+        """a shrunk case must still run something (a case without output would be judged `crash missing`, which is not
+        the failure being shrunk), and a program evaluation needs its source, its object and its shape"""
+        has = lambda p: any(l.startswith(p) for l in lines)
+        if not (has("ev ") or has("sz ")):
+            return False
+        if has("ev p "):
+            return has("lpc ") and has("load p ") and has("shape ")
+        if has("sz ") or has("ev sizes "):
+            return has("load sizes ")
+        return True
+
     def canon(self, lines):
         return [l.rstrip() for l in lines if l.strip() != "" and not l.startswith("#") and not l.startswith("obs ")]
 
@@ -768,6 +783,9 @@ class C04(Prop):
         B.append(self.mk("b-work-forms", Q(Q(W(40, 0), W(40, 1)), Q(W(40, 2), W(40, 3)))))
         # stack: recursion with many locals under a small value stack
         B.append(self.mk("b-rec-locals", R(20), depth=150, stack=200))
+        B.append(self.mk("b-rec-cbargs", R(3, 4), depth=150, stack=150))
+        B.append(self.mk("b-c2-rec-cbargs", C(C(R(0, 4))), depth=150, stack=157))
+        B.append(self.mk("b-rec-cbargs-deep", R(0, 4), depth=20, stack=400))
         B.append(self.mk("b-c2-rec-locals", C(C(R(12, 1))), depth=150, stack=150))
         B.append(self.mk("b-nest", F(3, F(0, F(5, W(10)))), depth=12))
         # mapping count bookkeeping across a partially applied `m += m2` (error path of add_to_mapping)
@@ -837,7 +855,7 @@ class C04(Prop):
             if k == "N":
                 return N("N", rng.choice([0, 1, 4, 10]))
             if k == "R":
-                return N("R", rng.choice([0, 0, 1, 4, 12, 20]), form=rng.below(4))
+                return N("R", rng.choice([0, 0, 1, 4, 12, 20]), form=rng.below(5))
             if k == "S":
                 return N("S", form=rng.below(len(SPIN_FORMS)))
             return N(k)
